@@ -71,6 +71,8 @@ func C10(c *core.Ctx) {
 	if !tabs.OK {
 		return
 	}
+	checkEncDec(c, "R0", tabs) // only the 32 IUPAC symbols (and no other byte, e.g. U) are sequence symbols
+	checkWorkersStateless(c, "R8", tabs)
 	fn := c.LookupFunc("pkg/updown", "getLines")
 	if fn == nil {
 		c.Und("R1/getLines", token.NoPos, "UNRESOLVED anchor updown.getLines")
